@@ -694,12 +694,20 @@ static std::string run_nt(const std::string &fn, const std::vector<std::string> 
         // reference: brute force for small moduli, group-theoretic count otherwise
         Z cnt = -1;
         std::vector<Z> ref;
-        bool brute = mm >= 1 && mm <= BRUTE_M && n <= 100000;
-        if (brute) {
-            Z am = fmodz(av, mm);
-            for (Z x = 0; x < mm; x = x + 1)
-                if (opow(x, n, mm) == am)
-                    ref.push_back(x);
+        bool brute = mm >= 1 && mm <= BRUTE_M && n >= 0 && n <= 100000;
+        if (brute) { // native arithmetic: m <= 3000, n <= 100000
+            unsigned long M = mp_get_ui(mm), am = mp_get_ui(fmodz(av, mm)), e = mp_get_ui(n);
+            for (unsigned long x = 0; x < M; x++) {
+                unsigned long r = 1 % M, b = x, k = e;
+                while (k) {
+                    if (k & 1)
+                        r = r * b % M;
+                    b = b * b % M;
+                    k >>= 1;
+                }
+                if (r == am)
+                    ref.push_back(Z(x));
+            }
             cnt = (long)ref.size();
         } else if (mm >= 1)
             cnt = ocount_roots(av, n, mm);
